@@ -110,6 +110,9 @@ size_t cov_count();
 
 // between the fault points of an enumeration: fresh fault plans and counters, same disk and knobs
 void reset_fault_plans();
+// violations noticed inside wrapped calls are parked and re-raised by the driver
+void set_pending_violation(const char* clause, const char* detail);
+void check_pending_violation();
 // world reset at start of every run
 void world_reset();
 // to be called at the end of a run: verifies no stream/fd/mapping the library opened is still open
